@@ -269,6 +269,7 @@ func ownFunc(w *World, fi *FuncInfo) []*OwnOb {
 	out = append(out, sliceAliasObs(w, fi)...)
 	out = append(out, resliceObs(w, fi)...)
 	out = append(out, nilListObs(w, fi)...)
+	out = append(out, closureWriteObs(w, fi)...)
 	// helpers executed through their bodies (filterList, filterMap) have no obligations of their own in a cone: what
 	// they do to their slice arguments is checked with every function that runs them
 	for _, c := range w.callees[fi] {
@@ -705,6 +706,110 @@ func nilListObs(w *World, fi *FuncInfo) []*OwnOb {
 			Why: "the list " + v.Name() + " starts out nil and is " + how + ": a nil list is not the empty list (JSON prints null, DeepEqual differs); start from a literal"})
 	}
 	sort.Slice(out, func(i, j int) bool { return out[i].Key < out[j].Key })
+	return out
+}
+
+// closureWriteObs: the per-entry callback of a list / map pass (a function literal handed to filterList or filterMap)
+// communicates through its RESULT - that is what the loop contracts of those helpers describe. A write to a captured
+// variable (assignment, append, index store, delete, maps.Copy, copy) is a side channel past those contracts: it is an
+// obligation failure unless the function's contract declares it (`effects closure-write:<variable>`).
+func closureWriteObs(w *World, fi *FuncInfo) []*OwnOb {
+	if fi.Decl == nil || fi.Decl.Body == nil {
+		return nil
+	}
+	info := fi.Pkg.TypesInfo
+	declared := map[string]bool{}
+	if fi.Contract != nil {
+		for _, e := range fi.Contract.Effects {
+			if strings.HasPrefix(e, "closure-write:") {
+				declared[strings.TrimPrefix(e, "closure-write:")] = true
+			}
+		}
+	}
+	var out []*OwnOb
+	seen := map[string]bool{}
+	ast.Inspect(fi.Decl.Body, func(n ast.Node) bool {
+		call, ok := n.(*ast.CallExpr)
+		if !ok {
+			return true
+		}
+		callee := w.calleeOfCall(call, info)
+		if callee == nil || !inlinable(callee) {
+			return true
+		}
+		for _, a := range call.Args {
+			lit, isLit := a.(*ast.FuncLit)
+			if !isLit {
+				continue
+			}
+			captured := func(x ast.Expr) *types.Var {
+				for {
+					switch y := x.(type) {
+					case *ast.ParenExpr:
+						x = y.X
+						continue
+					case *ast.IndexExpr:
+						x = y.X
+						continue
+					case *ast.SelectorExpr:
+						x = y.X
+						continue
+					case *ast.StarExpr:
+						x = y.X
+						continue
+					}
+					break
+				}
+				id, isId := x.(*ast.Ident)
+				if !isId {
+					return nil
+				}
+				v, isVar := info.ObjectOf(id).(*types.Var)
+				if !isVar || v.Pkg() == nil || v.Parent() == v.Pkg().Scope() {
+					return nil
+				}
+				if v.Pos() >= lit.Pos() && v.Pos() <= lit.End() {
+					return nil // declared inside the literal (parameters, results, locals)
+				}
+				return v
+			}
+			report := func(v *types.Var, p token.Pos, how string) {
+				if v == nil || declared[v.Name()] {
+					return
+				}
+				key := fmt.Sprintf("%s.own-closure-write[%s]", fi.Key, v.Name())
+				if seen[key] {
+					return
+				}
+				seen[key] = true
+				pp := w.Fset.Position(p)
+				out = append(out, &OwnOb{Key: key, Kind: "own-not-borrowed", OK: false, Pos: fmt.Sprintf("%s:%d", strings.TrimPrefix(pp.Filename, w.RepoDir+"/"), pp.Line),
+					Why: "the callback handed to " + callee.Name + " writes the captured variable " + v.Name() + " (" + how + "): a side channel past the helper's loop contract, which only speaks about the callback's result; return the value, or declare it (effects closure-write:" + v.Name() + ")"})
+			}
+			ast.Inspect(lit.Body, func(m ast.Node) bool {
+				switch y := m.(type) {
+				case *ast.AssignStmt:
+					if y.Tok == token.DEFINE {
+						return true
+					}
+					for _, l := range y.Lhs {
+						report(captured(l), y.Pos(), "assignment")
+					}
+				case *ast.IncDecStmt:
+					report(captured(y.X), y.Pos(), "increment")
+				case *ast.CallExpr:
+					switch exprString(y.Fun) {
+					case "delete", "maps.Copy", "copy", "clear":
+						if len(y.Args) > 0 {
+							report(captured(y.Args[0]), y.Pos(), exprString(y.Fun))
+						}
+					}
+				}
+				return true
+			})
+		}
+		return true
+	})
 	return out
 }
 
@@ -1627,6 +1732,7 @@ func ownPass(w *World, id string) []*OwnOb {
 			out = append(out, sliceAliasObs(w, fi)...)
 			out = append(out, resliceObs(w, fi)...)
 			out = append(out, nilListObs(w, fi)...)
+			out = append(out, closureWriteObs(w, fi)...)
 		}
 		return out
 	}
